@@ -560,6 +560,7 @@ func c07Machine(t *rapid.T, timer bool, rec *verifkit.Rec) {
 		steps += len(pre)
 		var stickWho *simClient
 		var stickStream *c07Stream
+		stickOp := ""
 		for i := 0; i < steps; i++ {
 			forced := i < len(pre)
 			var sc *simClient
@@ -599,11 +600,15 @@ func c07Machine(t *rapid.T, timer bool, rec *verifkit.Rec) {
 			if forced {
 				op = pre[i].op
 			} else if stickWho != nil {
-				// the publisher touches a stream and closes it at once: the close overtakes the stream's own, still delayed, announcement
-				op = "close"
-				if stickStream.ended || w.where[sc] == "" {
+				// the publisher touches a stream and closes it at once (the close overtakes the stream's own, still delayed,
+				// announcement), or another member sends a request while a replacement's announcement is still delayed
+				op = stickOp
+				if (op == "close" && stickStream.ended) || w.where[sc] == "" {
 					stickWho, stickStream = nil, nil
 					continue
+				}
+				if op == "request" {
+					stickWho, stickStream = nil, nil
 				}
 			} else {
 				op = rapid.SampledFrom(ops).Draw(t, "op")
@@ -839,6 +844,17 @@ func c07Machine(t *rapid.T, timer bool, rec *verifkit.Rec) {
 					}
 					prevInChain = st
 				}
+				if timer && op == "replace" && !forced && i < steps-1 && prevInChain != nil && rapid.Bool().Draw(t, "thenSomebodyElseRequests") {
+					var others []*simClient
+					for _, o := range members(prevInChain.group) {
+						if o != sc {
+							others = append(others, o)
+						}
+					}
+					if len(others) > 0 {
+						stickWho, stickStream, stickOp = others[rapid.IntRange(0, len(others)-1).Draw(t, "requester")], prevInChain, "request"
+					}
+				}
 			case "addTrack":
 				st := myStreams[rapid.IntRange(0, len(myStreams)-1).Draw(t, "which")]
 				kind := rapid.SampledFrom([]string{"audio", "video", "video"}).Draw(t, "kind")
@@ -861,7 +877,7 @@ func c07Machine(t *rapid.T, timer bool, rec *verifkit.Rec) {
 					w.modelPush(w.subs[o], st)
 				}
 				if timer && !forced && i < steps-1 && rapid.Bool().Draw(t, "thenClosesItAtOnce") {
-					stickWho, stickStream = sc, st
+					stickWho, stickStream, stickOp = sc, st, "close"
 				}
 			case "raceMove":
 				// the publisher pushes a stream; before the subscriber's loop looks at the queued action, the subscriber
